@@ -163,7 +163,7 @@ pub struct Threads {
     pub failed_stack_mmaps: Vec<(u32, String)>,
 }
 
-fn is_stack_shaped(e: &Ev) -> bool {
+pub fn is_stack_shaped(e: &Ev) -> bool {
     e.name == "mmap" && e.pos_num(1) == Some(STACK_SZ) && e.pos(2).map(|p| p.trim() == "PROT_READ|PROT_WRITE").unwrap_or(false) && e.pos(3).map(|p| p.trim() == "MAP_PRIVATE|MAP_ANONYMOUS").unwrap_or(false)
 }
 
